@@ -68,6 +68,11 @@ class HarnessError(Exception):
     """Something went wrong in the simulator itself (never a VIOLATION)."""
 
 
+class InjectedTaskFailure(Exception):
+    """Raised by the simulator in place of a task (a worker lost / a task that raises): the
+    caller's fit / compute call fails, the caller catches it and carries on."""
+
+
 class Choices:
     """Single source of scheduling/fault decisions; records or replays."""
 
@@ -125,7 +130,8 @@ def _sort_key(key):
 
 class SimScheduler:
     def __init__(self, mode="shared", policy="random", n_workers=2, stall_p=0.3,
-                 choices=None, max_events=200000):
+                 choices=None, max_events=200000, fail_after=None):
+        self.fail_after = fail_after
         if mode not in ALL_MODES:
             raise HarnessError(f"unknown mode {mode}")
         if policy not in POLICIES:
@@ -144,6 +150,7 @@ class SimScheduler:
             "spec_copies": 0, "input_copies": 0, "output_copies": 0,
             "transfers": 0, "same_worker_shares": 0, "multi_dep_tasks": 0,
             "workers_used": 0, "preemptions": 0, "max_concurrent_tasks": 0,
+            "injected_task_failures": 0,
         }
         self._depth = 0
         self._back = threading.Event()
@@ -284,6 +291,12 @@ class SimScheduler:
                 except Exception as e:  # pragma: no cover
                     raise HarnessError(f"cannot serialise task {k!r}: {e!r}")
                 self.stats["spec_copies"] += 1
+            if self.fail_after is not None and self.stats["tasks"] >= self.fail_after:
+                self.stats["injected_task_failures"] += 1
+                self.events.append((self.seq, self._depth, "FAIL:" + str(canon_key(k)),
+                                    _key_index(k), w, ndeps[k]))
+                self.seq += 1
+                raise InjectedTaskFailure(str(canon_key(k)))
             value = run_node(inputs)
             if self.mode == "isolated":
                 value = _roundtrip(value)
@@ -354,6 +367,14 @@ class SimScheduler:
                     quantum = -(1 + self.choices.pick(3))
                 elif quantum == "O":  # until just before the k-th next store instruction
                     quantum = -10 - (1 + self.choices.pick(16))
+            if kind == "start" and self.fail_after is not None \
+                    and self.stats["tasks"] >= self.fail_after:
+                self.stats["injected_task_failures"] += 1
+                self.events.append((self.seq, self._depth, "FAIL:" + str(canon_key(what)),
+                                    _key_index(what), 0, ndeps[what]))
+                self.seq += 1
+                failure = InjectedTaskFailure(str(canon_key(what)))
+                continue  # the tasks in flight are drained, then the call fails
             if kind == "start":
                 k = what
                 t = _TaskThread(self, k, graph[k], {d: store[d] for d in deps[k]})
@@ -596,7 +617,7 @@ def make_sim(sched, replay=None):
                         policy=sched.get("policy", "random"),
                         n_workers=sched.get("workers", 2),
                         stall_p=sched.get("stall_p", 0.3),
-                        choices=ch)
+                        choices=ch, fail_after=sched.get("fail_after"))
 
 
 def gen_sched(rng, modes=ALL_MODES):
